@@ -91,6 +91,36 @@ let parse_tx () =
   let vetoes = repeat nv (fun () -> let s = next_name () in let c = parse_change () in let i = next_hex () in ((s, c), i)) in
   let no = next_int () in
   let xops = repeat no parse_xop in
+  (* C07: pseudo vetoes "@c07pc" / "@c07open" = actions registered through contexts derived from the transaction's
+     context (Store/TxCtx.v; token format in harness/cmd/storageharness/store_c07_ctx.go) *)
+  let pseudo nm = List.filter_map (fun ((s, _), i) -> if string_of_name s = nm then Some (string_of_name i) else None) vetoes in
+  if pseudo "@c07pc" <> [] || pseudo "@c07open" <> [] then begin
+    let opn = (match pseudo "@c07open" with m :: _ -> m | [] -> "") in
+    let nil = (opn = "nil") in
+    let wstep = function 's' -> Some WGetSys | 'n' -> Some WNewSys | 'u' -> Some WUpdCtx | _ -> None in
+    let dstep ch = match ch with
+      | 'U' -> Some (DJoin false) | 'B' -> Some (DJoin true) | 'x' -> Some DNewTx
+      | _ -> (match wstep ch with Some w -> Some (DWrap w) | None -> None) in
+    let chars s = List.init (String.length s) (String.get s) in
+    let label = ref 0 in
+    let regs = List.map (fun r ->
+      match String.split_on_char ':' r with
+      | [site; path; kind] ->
+          incr label;
+          let a = (match kind with "c" -> ACommit (nat_of_int !label) | k -> APre (nat_of_int !label, k = "f")) in
+          let path = if path = "-" then "" else path in
+          ((if site = "pre" then (if nil then 0 else -1) else int_of_string site), path, a)
+      | _ -> failwith ("bad @c07pc " ^ r)) (pseudo "@c07pc") in
+    (* the transaction's own flag = the action the harness registers on the context object before Db.Update *)
+    let regs = (if pcf then [((if nil then 0 else -1), "", APre (O, true))] else []) @ regs in
+    let before = List.filter_map (fun (site, path, a) ->
+      if site < 0 then Some (List.filter_map wstep (chars path), a) else None) regs in
+    let body = List.concat (List.mapi (fun k x ->
+      List.filter_map (fun (site, path, a) ->
+        if site = k || (k = no && site > no) then Some (IReg (List.filter_map dstep (chars path), a)) else None) regs
+      @ (match x with Some x -> [IOp x] | None -> [])) (List.map (fun x -> Some x) xops @ [None])) in
+    `Ctx (sys, vetoes, { cp_nil = nil; cp_open = (if sys && opn = "" then [WGetSys] else []); cp_before = before; cp_body = body })
+  end else
   if List.for_all (function XBase _ -> true | _ -> false) xops then
     `Plain { tx_sys = sys; tx_vetoes = vetoes; tx_ops = List.map (function XBase o -> o | _ -> OFail) xops; tx_precommit_fails = pcf }
   else
@@ -154,7 +184,10 @@ let () =
         let t = parse_tx () in
         let (((rs, committed), st'), evs) = (match t with
           | `Plain t -> run_tx sch fuel !st t
-          | `Derived t -> run_xtx sch fuel !st t) in
+          | `Derived t -> run_xtx sch fuel !st t
+          | `Ctx (sys, vetoes, p) ->
+              let o = ctx_update sch fuel !st sys vetoes p in
+              (((o.co_results, o.co_committed), o.co_state), o.co_events)) in
         st := st';
         Buffer.add_string buf "TX R";
         List.iter (fun r -> Buffer.add_char buf ' '; Buffer.add_string buf (kind_str r)) rs;
